@@ -147,7 +147,10 @@ def evaluate(e, dtype):
         # ONE layer object through a sequence of calls: inputs with different numbers of batch dimensions (the same extent as the first mode included),
         # a forward without autograd, an in-place update of the parameters (what an optimiser step or load_state_dict does), the same forward again
         torch.manual_seed(1)
-        L7 = __import__("torchtt").nn.LinearLayerTT(si, so, rk, dtype=dtype, initializer=e.init)
+        # the sizes as the caller's own lists (edited AFTER the layer was built: the layer must not depend on them any more) or as tuples
+        si_arg, so_arg = (list(si), list(so)) if d % 2 == 0 else (tuple(si), tuple(so))
+        L7 = __import__("torchtt").nn.LinearLayerTT(si_arg, so_arg, rk, dtype=dtype, initializer=e.init)
+        if isinstance(si_arg, list): si_arg.append(3); so_arg.append(2); si_arg[0] += 1
         with torch.no_grad():
             for p, c in zip(L7.cores, W0.cores): p.copy_(ttgen.to_torch(c, dtype))
             L7.bias.copy_(ttgen.to_torch(e.args[1].arr, dtype))
@@ -161,6 +164,21 @@ def evaluate(e, dtype):
             yq = L7.forward(Xq)
             if list(yq.shape) != [si[0]] * nb7 + list(so) or not (float((yq.to(torch.float64) - ref7(Xq)).abs().max()) <= tol7 * (1.0 + float(ref7(Xq).abs().max()))):
                 fails.append("forward() of the same layer on an input with %d batch dimensions (after calls with other batch shapes) differs from the dense operator" % nb7); break
+        # gradients of any magnitude: one input entry of 2^30 (exact in either dtype) makes parameter gradients of the order 1e9 - they must still be
+        # the gradients of the dense affine map built from copies of the same parameters
+        Xh = torch.randint(-2, 3, [2] + list(si), generator=gen7).to(dtype); Xh.reshape(-1)[0] = 2.0 ** 30
+        Wt7 = torch.randint(-2, 3, [2] + list(so), generator=gen7).to(dtype)
+        L7.zero_grad()
+        (L7.forward(Xh) * Wt7).sum().backward()
+        leaves7 = [p.detach().clone().requires_grad_(True) for p in L7.cores]; b7 = L7.bias.detach().clone().requires_grad_(True)
+        Wd7 = torch_full_ttm(leaves7)
+        yd7 = torch.tensordot(Xh, Wd7, dims=(list(range(Xh.dim() - d, Xh.dim())), list(range(d, 2 * d)))) + b7
+        (yd7 * Wt7).sum().backward()
+        for k7, (p, q) in enumerate(zip(list(L7.cores) + [L7.bias], leaves7 + [b7])):
+            gmax = float(q.grad.abs().max()) if q.grad is not None else 0.0
+            if p.grad is None or list(p.grad.shape) != list(q.grad.shape) or not (float((p.grad - q.grad).abs().max()) <= (1e-12 if dtype == torch.float64 else 1e-4) * max(gmax, 1.0)):
+                fails.append("gradient of parameter %d for an input with an entry 2^30 differs from the gradient of the dense affine map (magnitude %.3g)" % (k7, gmax)); break
+        L7.zero_grad()
         Xq = torch.randint(-2, 3, [2] + list(si), generator=gen7).to(dtype)
         with torch.no_grad():
             y_a = L7.forward(Xq)
